@@ -425,6 +425,8 @@ sstat MainSolver::solve() {
     for (PTRef tr : logic.propFormulasAppearingInUF) {
         Lit l = term_mapper->getOrCreateLit(tr);
         smt_solver->addVar(var(l));
+        // The theory needs a value for it: it must survive variable elimination (non-incremental mode)
+        smt_solver->setFrozen(var(l), true);
     }
 
     vec<FrameId> en_frames;
